@@ -23,33 +23,58 @@ namespace OdlModel.C13
 def nMin : Pad → Nat
   | .order2 => 3 | .order2Adj => 3 | _ => 2
 
+/-- Textbook one-cell extension rules, defined WITHOUT reference to the code (for a one-cell
+extension: `replicate` = `numpy.pad` modes 'edge' and 'symmetric'; `reflect` = 'reflect';
+`wrap` = 'wrap'; `linear`/`quadratic` = polynomial extrapolation through 2/3 edge values). -/
+inductive Ext | const | replicate | reflect | wrap | linear | quadratic
+  deriving DecidableEq, Repr
+
 section
 variable {K : Type} [Field K]
 
-/-- the value the named boundary rule puts in front of `f[0]` -/
-def ghostL (p : Pad) (c : K) (f : Nat → K) : K :=
-  match p with
-  | .constant => c
-  | .symmetric => f 0
-  | .order0 => f 0
-  | .order1 => 2 * f 0 - f 1
-  | .order2 => 3 * f 0 - 3 * f 1 + f 2
-  | _ => 0
-/-- the value the named boundary rule puts behind `f[n-1]` -/
-def ghostR (p : Pad) (n : Nat) (c : K) (f : Nat → K) : K :=
-  match p with
-  | .constant => c
-  | .symmetric => f (n - 1)
-  | .order0 => f (n - 1)
-  | .order1 => 2 * f (n - 1) - f (n - 2)
-  | .order2 => 3 * f (n - 1) - 3 * f (n - 2) + f (n - 3)
-  | _ => 0
-/-- `f` extended by one ghost cell on each side (`np.pad(f, 1, mode)`); entry `k+1` is `f[k]`.
-Periodic is stated separately (its ghosts are `f[n-1]`, `f[0]`). -/
-def padded (p : Pad) (n : Nat) (c : K) (f : Nat → K) : Nat → K := fun k =>
-  if k = 0 then (if p = .periodic then f (n - 1) else ghostL p c f)
-  else if k = n + 1 then (if p = .periodic then f 0 else ghostR p n c f)
-  else f (k - 1)
+/-- the value the rule puts in front of `f[0]` -/
+def Ext.ghostL (e : Ext) (n : Nat) (c : K) (f : Nat → K) : K :=
+  match e with
+  | .const => c
+  | .replicate => f 0
+  | .reflect => f 1
+  | .wrap => f (n - 1)
+  | .linear => 2 * f 0 - f 1
+  | .quadratic => 3 * f 0 - 3 * f 1 + f 2
+/-- the value the rule puts behind `f[n-1]` -/
+def Ext.ghostR (e : Ext) (n : Nat) (c : K) (f : Nat → K) : K :=
+  match e with
+  | .const => c
+  | .replicate => f (n - 1)
+  | .reflect => f (n - 2)
+  | .wrap => f 0
+  | .linear => 2 * f (n - 1) - f (n - 2)
+  | .quadratic => 3 * f (n - 1) - 3 * f (n - 2) + f (n - 3)
+/-- `f` extended by one ghost cell on each side (`np.pad(f, 1, rule)`); entry `k+1` is `f[k]`. -/
+def extend (e : Ext) (n : Nat) (c : K) (f : Nat → K) : Nat → K := fun k =>
+  if k = 0 then e.ghostL n c f else if k = n + 1 then e.ghostR n c f else f (k - 1)
+end
+
+/-- The CLAIM about the code that `fd_eq_stencil_ext` proves: which textbook rule each
+non-adjoint pad mode realises.  `symmetric` realises `replicate` (mirror about the edge,
+repeating the outmost value: `numpy.pad` 'symmetric'), NOT `reflect`
+(`C13.symmetric_is_replicate_not_reflect`), and therefore coincides with `order0`. -/
+def ruleOf : Pad → Option Ext
+  | .constant => some .const
+  | .symmetric => some .replicate
+  | .periodic => some .wrap
+  | .order0 => some .replicate
+  | .order1 => some .linear
+  | .order2 => some .quadratic
+  | _ => none
+
+section
+variable {K : Type} [Field K]
+/-- the array extended by the rule the pad mode is claimed to realise -/
+def padded (p : Pad) (n : Nat) (c : K) (f : Nat → K) : Nat → K :=
+  match ruleOf p with
+  | some e => extend e n c f
+  | none => fun _ => 0
 /-- textbook difference stencils, row `i` of the padded array `E` (shifted by one) -/
 def stencil (m : Method) (E : Nat → K) (i : Nat) : K :=
   match m with
@@ -92,7 +117,10 @@ theorem C13.size_ok_iff (m : Method) (p : Pad) (n : Nat) :
 (`constant` with any `pad_const`, `symmetric`, `periodic`, `order0`, `order1`; `order2` with
 `central`), every axis length `n ≥ n_min`, every input, every `dx`: row `i` of what
 `finite_diff` computes (interior band, boundary statements in program order, `/= dx`) is the
-textbook stencil of the method applied to the array extended by one ghost cell per side. -/
+textbook stencil of the method applied to the array extended by one ghost cell per side
+according to the independently defined rule `ruleOf p` (`symmetric ↦ replicate`, see
+`symmetric_is_replicate_not_reflect`).  Small print: `dx` is an arbitrary field element here
+(the code's `dx <= 0 → ValueError` lives in the driver; for `dx = 0` both sides are `0`). -/
 theorem C13.fd_eq_stencil_ext {K : Type} [Field K] [CharZero K] (m : Method) (p : Pad)
     (hp : stencilCase m p = true) (n : Nat) (hn : nMin p ≤ n) (c dx : K) (f : Nat → K)
     (i : Nat) (hi : i < n) :
@@ -108,10 +136,10 @@ theorem C13.fd_eq_stencil_ext {K : Type} [Field K] [CharZero K] (m : Method) (p 
   · simp [hdx]
   rcases (show i = 0 ∨ i = k + 1 ∨ (1 ≤ i ∧ i ≤ k) by omega) with rfl | rfl | ⟨ha, hb⟩
   · cases m <;> cases p <;> simp [stencilCase] at hp <;>
-      simp [tbl, accSum, evalTerms, evalTerm, interior, padded, stencil, ghostL, ghostR, den,
+      simp [tbl, accSum, evalTerms, evalTerm, interior, padded, ruleOf, extend, Ext.ghostL, Ext.ghostR, stencil, den,
         Corner.pos] <;> field_simp <;> ring
   · cases m <;> cases p <;> simp [stencilCase] at hp <;>
-      simp [tbl, accSum, evalTerms, evalTerm, interior, padded, stencil, ghostL, ghostR, den,
+      simp [tbl, accSum, evalTerms, evalTerm, interior, padded, ruleOf, extend, Ext.ghostL, Ext.ghostR, stencil, den,
         Corner.pos] <;> field_simp <;> ring
   · have e1 : i ≠ 0 := by omega
     have e2 : i ≠ k + 1 := by omega
@@ -121,12 +149,35 @@ theorem C13.fd_eq_stencil_ext {K : Type} [Field K] [CharZero K] (m : Method) (p 
     have e6 : ¬ (i = k + 2 + 1) := by omega
     have e7 : ¬ (i = k + 2) := by omega
     cases m <;> cases p <;> simp [stencilCase] at hp <;>
-      simp [tbl, accSum, evalTerms, evalTerm, interior, padded, stencil, ghostL, ghostR, den,
+      simp [tbl, accSum, evalTerms, evalTerm, interior, padded, ruleOf, extend, Ext.ghostL, Ext.ghostR, stencil, den,
         Corner.pos, e1, e2, e3, e4, e5, e6, e7, ha] <;> field_simp <;> ring
 
 example : fd den (tbl .central .order1) 2 0 (1 : ℚ) (fun i => (i : ℚ) * 3) 1
     = stencil .central (padded .order1 2 0 (fun i => (i : ℚ) * 3)) 1 / 1 :=
   C13.fd_eq_stencil_ext .central .order1 rfl 2 (by decide) 0 1 _ 1 (by decide)
+
+/-- Which rule `symmetric` is.  (a) In the generated tables `symmetric` and `order0` (and their
+adjoint modes) are the same leaves, for every method.  (b) The reading "reflect, not doubling
+the outmost values" (`numpy.pad` 'reflect', the wording the docstrings had until the `fix:`
+commit recorded in known_findings.json) does NOT hold: for every method the code differs from
+the method's stencil on the reflect-extended array already for `n = 3`, `f = (0,1,0)`
+(central row 0: 1/2 vs 0; forward row 2: 0 vs 1; backward row 0: 0 vs −1). -/
+theorem C13.symmetric_is_replicate_not_reflect :
+    (∀ m : Method, tbl m .symmetric = tbl m .order0 ∧ tbl m .symmetricAdj = tbl m .order0Adj) ∧
+    (∀ m : Method, ∃ i < 3,
+      fd den (tbl m .symmetric) 3 0 (1 : ℚ) (fun k => if k = 1 then 1 else 0) i
+        ≠ stencil m (extend .reflect 3 0 (fun k => if k = 1 then (1 : ℚ) else 0)) i / 1) := by
+  refine ⟨fun m => by cases m <;> decide, fun m => ?_⟩
+  cases m
+  · exact ⟨0, by decide, by
+      norm_num [fd, fdNum, tbl, interior, assign, accStep, evalTerms, evalTerm, Corner.pos, den,
+        stencil, extend, Ext.ghostL, Ext.ghostR]⟩
+  · exact ⟨2, by decide, by
+      norm_num [fd, fdNum, tbl, interior, assign, accStep, evalTerms, evalTerm, Corner.pos, den,
+        stencil, extend, Ext.ghostL, Ext.ghostR]⟩
+  · exact ⟨0, by decide, by
+      norm_num [fd, fdNum, tbl, interior, assign, accStep, evalTerms, evalTerm, Corner.pos, den,
+        stencil, extend, Ext.ghostL, Ext.ghostR]⟩
 
 /-! ### Adjoints -/
 
@@ -177,10 +228,10 @@ theorem C13.order2_edge_rule {K : Type} [Field K] [CharZero K] (m : Method)
   · simp [hdx]
   rcases (show i = 0 ∨ i = k + 1 ∨ (1 ≤ i ∧ i ≤ k) by omega) with rfl | rfl | ⟨ha, hb⟩
   · cases m <;>
-      simp [tbl, accSum, evalTerms, evalTerm, interior, padded, stencil, ghostL, ghostR, den,
+      simp [tbl, accSum, evalTerms, evalTerm, interior, padded, ruleOf, extend, Ext.ghostL, Ext.ghostR, stencil, den,
         Corner.pos] <;> field_simp <;> ring
   · cases m <;>
-      simp [tbl, accSum, evalTerms, evalTerm, interior, padded, stencil, ghostL, ghostR, den,
+      simp [tbl, accSum, evalTerms, evalTerm, interior, padded, ruleOf, extend, Ext.ghostL, Ext.ghostR, stencil, den,
         Corner.pos] <;> field_simp <;> ring
   · have e1 : i ≠ 0 := by omega
     have e2 : i ≠ k + 1 := by omega
@@ -190,7 +241,7 @@ theorem C13.order2_edge_rule {K : Type} [Field K] [CharZero K] (m : Method)
     have e6 : ¬ (i = k + 2 + 1) := by omega
     have e7 : ¬ (i = k + 2) := by omega
     cases m <;>
-      simp [tbl, accSum, evalTerms, evalTerm, interior, padded, stencil, ghostL, ghostR, den,
+      simp [tbl, accSum, evalTerms, evalTerm, interior, padded, ruleOf, extend, Ext.ghostL, Ext.ghostR, stencil, den,
         Corner.pos, e1, e2, e3, e4, e5, e6, e7, ha] <;> field_simp <;> ring
 
 /-- Recorded deviation from the literal reading "every method x every pad mode is the
@@ -200,7 +251,7 @@ theorem C13.order2_forward_edge_differs :
     fd den (tbl .forward .order2) 3 0 (1 : ℚ) (fun i => if i = 2 then 1 else 0) 0
       ≠ stencil .forward (padded .order2 3 0 (fun i => if i = 2 then (1 : ℚ) else 0)) 0 / 1 := by
   norm_num [fd, fdNum, tbl, interior, assign, accStep, evalTerms, evalTerm, Corner.pos, den,
-    stencil, padded, ghostL, ghostR]
+    stencil, padded, ruleOf, extend, Ext.ghostL, Ext.ghostR]
 
 /-- unit vector -/
 def OdlModel.C13.unit {K : Type} [Field K] (j : Nat) : Nat → K := fun i => if i = j then 1 else 0
@@ -242,9 +293,14 @@ theorem C13.fd_affine {K : Type} [Field K] (t : Table) (n : Nat) (hn : 2 ≤ n) 
 
 /-! ### N-d operators (ndim ≤ 3): PartialDerivative, Gradient, Divergence, Laplacian -/
 
-/-- `PartialDerivative.adjoint` on an N-d array (any shape, axis `a`): the pairing over the
-whole index box satisfies `⟨G, ∂ₐF⟩ = −⟨F, ∂ₐ' G⟩` with `∂ₐ'` built from `_ADJ_METHOD`,
-`_ADJ_PADDING` (uniform weights cancel on both sides). -/
+/-- `PartialDerivative.adjoint` on an N-d array (any shape, axis `a`): for the PLAIN sum over
+the whole index box, `Σ G·∂ₐF = −Σ F·∂ₐ'G` with `∂ₐ'` built from `_ADJ_METHOD`,
+`_ADJ_PADDING` and the same `dx` — i.e. the returned operator is minus the matrix transpose.
+Small print: the model has no spaces; that the transpose IS the adjoint for the spaces' inner
+products needs one and the same constant weight on domain and range (`uniform_discr` without
+`nodes_on_bdry`; `PointwiseTensorFieldOperator` forces range ≅ domain).  That step is not a
+Lean statement here; on `nodes_on_bdry` / array-weighted spaces the transpose is NOT the
+adjoint (open findings F60, F56 of C05) and C13 does not claim it. -/
 theorem C13.pd_adjoint {K : Type} [Field K] (m : Method) (p : Pad) (shape : Nat → Nat)
     (a : Nat) (ha : a < 3)
     (h : sizeCheck guards (tbl m p) p (shape a) = none)
@@ -513,13 +569,33 @@ theorem C13.fd_adjoint_hermitian {K : Type} [Field K] (σ : K →+* K) (m : Meth
   exact sum_congr rfl (fun i _ => mul_comm _ _)
 
 
-/-! ### Which instance `.adjoint` returns -/
+/-! ### Which instance `.adjoint` returns (flags `affineAware`, `adjGuarded` are generated) -/
 
 /-- On linear instances (`pad_const = 0`) of all four classes, `.adjoint.adjoint` is the
-instance itself: same class (Gradient ↔ Divergence swapped twice), method, pad mode, sign. -/
+instance itself: same class (Gradient ↔ Divergence swapped twice), method, pad mode, sign.
+(Stated for `pad_const = 0` only: `Divergence.adjoint` does not pass `pad_const` on.) -/
 theorem C13.op_adjoint_involutive {K : Type} [Field K] [DecidableEq K] (k : Kind) (m : Method)
     (p : Pad) (neg : Bool) :
-    ((⟨k, m, p, (0 : K), neg⟩ : Op K).adjoint adjMethod adjPad).bind
-        (fun o => o.adjoint adjMethod adjPad) = some ⟨k, m, p, 0, neg⟩ := by
+    ((⟨k, m, p, (0 : K), neg⟩ : Op K).adjoint affineAware adjGuarded adjMethod adjPad).bind
+        (fun o => o.adjoint affineAware adjGuarded adjMethod adjPad)
+      = some ⟨k, m, p, 0, neg⟩ := by
   obtain ⟨h1, h2, -, -⟩ := C13.adj_involutive
-  cases k <;> simp [Op.adjoint, Op.isLinear, h1 m, h2 p]
+  cases k <;> simp [Op.adjoint, Op.isLinear, affineAware, adjGuarded, h1 m, h2 p]
+
+/-- Every one of the four classes flags the constant-padding variant with `pad_const ≠ 0` as
+non-linear and refuses to return an adjoint for it (`ValueError`); every other instance is
+flagged linear and has an adjoint.  Breaks if an `__init__` passes `linear=True` or an
+`.adjoint` loses its guard. -/
+theorem C13.affine_instances_have_no_adjoint {K : Type} [Field K] [DecidableEq K] (k : Kind)
+    (m : Method) (p : Pad) (c : K) (neg : Bool) :
+    let o : Op K := ⟨k, m, p, c, neg⟩
+    (o.isLinear affineAware = !(p == .constant && c != 0)) ∧
+    ((o.adjoint affineAware adjGuarded adjMethod adjPad).isSome = o.isLinear affineAware) := by
+  cases k <;> by_cases hp : p = .constant <;> by_cases hc : c = 0 <;>
+    simp [Op.adjoint, Op.isLinear, affineAware, adjGuarded, hp, hc]
+
+example : ((⟨.lap, .forward, .constant, (1 : ℚ), false⟩ : Op ℚ).adjoint
+    affineAware adjGuarded adjMethod adjPad).isSome = false := by
+  have h := (C13.affine_instances_have_no_adjoint .lap .forward .constant (1 : ℚ) false).2
+  simp only [Op.isLinear, affineAware] at h
+  rw [h]; simp
